@@ -185,6 +185,13 @@ def run(an: Analysis, rep):
     rep.run(_jf.fold_rule, an, shj)
     rep.run(_jf.encode_fold_rule, an, shj)
     rep.run(_jf.constants_fold_rule, an, shj)
+    from .common import SharedRules as _SRE
+    from . import c08 as _c08e
+    she = _SRE(rep, "R15.E", "fields equal to their default are left out of the document, and 'equal' is the data classes' own ==: every field takes part in equality, hand-written __eq__ covers every "
+                               "field, and the constant key identifies all NaNs and nothing else (shared with C08's R08.1 / R08.2 / R08.4) - a field left out of == makes a non-default value vanish from the document")
+    rep.run(_c08e.r081, an, she)
+    rep.run(_c08e.r082, an, she)
+    rep.run(_c08e.r084, an, she)
     rep.stats.update(an.stats(interps))
     rep.assumptions += [
         "json / orjson themselves serialise floats, strings and containers identically on 3.7..3.12",
